@@ -88,7 +88,7 @@ def run(ctx):
                     ctx.violation(f"[{enc}] long-name set of {n[:40]!r} is not valid per the specification: {fnd[:1]}", "lfn-spec", dict(name=n, encoding=enc))
                 ws, r = m.cmd(f"f.make_lfn {hx(n.encode('utf-16-le', 'surrogatepass'))} {bytes(sfn.name).hex()}")
                 ctx.traces += 1
-                if r != f"ok {raw.hex()} {hx(n.encode('utf-16-le'))}":
+                if r is not None and r != f"ok {raw.hex()} {hx(n.encode('utf-16-le'))}":
                     ctx.tie_break("Dir.make_lfn vs make_lfn_entry", dict(name=n, encoding=enc))
                 if units > 11:
                     ctx.nontrivial.add((n, enc, pc))
